@@ -310,4 +310,6 @@ def run(ctx, progs):
         r2_wrappers(ctx, P, D)
         r3_reclaim_boundary(ctx, P, D)
         r4_backward_movers(ctx, P, D)
+        from . import c01
+        c01.r3b_is_last_exact(ctx, P, R="C13.R5")
     ctx.config = None
